@@ -163,12 +163,14 @@ CLAIMS.update({
 
 CLAIMS.update({
     "C13": dict(
-        technique="static analysis: finite-domain evaluation of each generator's LuaGenerator::write_expression on string and interpolated-string nodes from the typed THIR (abstract interpretation; core::fmt's template encoding and integer formatting modelled), read back by an independent reader of Lua 5.1 / Luau string-literal syntax (rustc_private driver)",
-        text="String half only. For each of the three generators: every byte string of length <= 1, every pair (any byte, one byte per class the writer distinguishes; thorough: all 65536 pairs) "
-             "and the structured long forms (lengths around the 20/60 thresholds, 5/6/7 newlines, `]]`/`]=]`/`]==]` runs, trailing `]`, leading newline, CR, quotes, invalid UTF-8, non-ASCII) is written as ONE "
+        technique="static analysis: finite-domain evaluation of each generator's LuaGenerator::write_expression on string, interpolated-string and number nodes, and of NumberExpression::from_str, from the typed THIR (abstract interpretation; core::fmt's template encoding, integer formatting, Rust's f64 printing and parsing modelled on IEEE doubles), read back by independent readers of Lua 5.1 / Luau string-literal and number syntax (rustc_private driver)",
+        text="Strings: for each of the three generators, every byte string of length <= 1, every pair (any byte, one byte per class the writer distinguishes; thorough: all 65536 pairs) "
+             "and the structured long forms (lengths around the 20/60 thresholds, 5/6/7 newlines, `]]`/`]=]`/`]==]` runs, endings that are a prefix of a closer, trailing `]`, leading newline, CR, quotes, invalid UTF-8, non-ASCII) is written as ONE "
              "complete literal that Luau reads back as exactly the same bytes, and Lua 5.1 too unless it contains `\\u{`; the same for interpolated-string segments. "
-             "NUMBER literals (formatting and parsing of doubles) are NOT decided: they are arithmetic on run-time values; neighbouring-token fusion is C02.fuse.",
-        note="No darklua code runs; the enumerated domain is finite; a string the evaluator cannot establish fails closed. The reader is strict (unknown escapes are errors). " + TB,
+             "Numbers: every double of the boundary classes (both zeros, subnormals, powers of two and ten and their neighbours, 2^53 neighbours, shortest-representation hard cases, infinities, NaN) x recorded exponent "
+             "(none, small, large, out of i32, either case), u64 boundary values as hexadecimal/binary: the text written reads back as exactly the same double; 60 literals (underscores, exponents, 17+ digits, halfway cases, hex/binary to 64 bits) "
+             "parse to the value Luau gives them. The claim is the enumerated domain, not all doubles; neighbouring-token fusion is C02.fuse.",
+        note="No darklua code runs. f64 is modelled by IEEE doubles; Rust's `{}`/`{:e}` printing is emulated in sa/floatfmt.py (validated once against rustc on 3537 doubles); f64::powi's last bits are unspecified and no verdict depends on them. A cell the evaluator cannot establish fails closed. " + TB,
         ref="DESIGN.md §3 C13"),
 })
 
